@@ -57,26 +57,36 @@ def _wrap(rng, inner, qs, depth):
 
 
 def _controlled_subcircuit(rng, qs):
-    """a classically controlled sub-circuit that itself contains classical controls, inside a repeated / prefixed scope"""
+    """a classically controlled sub-circuit that itself contains classical controls, inside a repeated / prefixed / key-mapped
+    scope; returns the wrapped operation AND the flat circuit it stands for, written out by hand (independent of the code)"""
     import cirq
 
-    k1, k2 = rng.choice([("a", "a"), ("a", "b"), ("b", "a")])
-    inner = cirq.FrozenCircuit(rng.choice([cirq.X, cirq.Y ** 0.5])(qs[1]).with_classical_controls(k1), rng.choice([cirq.H, cirq.T])(qs[2]))
-    body_ops = [cirq.Moment(cirq.X(qs[0]) ** 0.5), cirq.Moment(cirq.measure(qs[0], key="a")), cirq.Moment(cirq.measure(qs[2], key="b")),
+    k1, k2 = rng.choice([("a", "a"), ("a", "b"), ("b", "a"), ("b", "b")])
+    g1, g2 = rng.choice([cirq.X, cirq.Y ** 0.5]), rng.choice([cirq.H, cirq.T])
+    with_c = rng.random() < 0.5
+    inner = cirq.FrozenCircuit(g1(qs[1]).with_classical_controls(k1), g2(qs[2]))
+    body_ops = [cirq.Moment(cirq.X(qs[0]) ** 0.5), cirq.Moment(cirq.measure(qs[0], key="a")), cirq.Moment(cirq.X(qs[2]) ** 0.5), cirq.Moment(cirq.measure(qs[2], key="b")),
                 cirq.CircuitOperation(inner).with_classical_controls(k2)]
-    if rng.random() < 0.5:
+    if with_c:
         body_ops.append(cirq.Moment(cirq.measure(qs[1], key="c")))
     op = cirq.CircuitOperation(cirq.FrozenCircuit(body_ops))
     r = rng.random()
-    if r < 0.4:
-        op = op.repeat(2, use_repetition_ids=True)
-    elif r < 0.7:
-        op = op.with_key_path(("p",))
+    prefixes, kmap = [None], {}
+    if r < 0.35:
+        op, prefixes = op.repeat(2, use_repetition_ids=True), ["0", "1"]
+    elif r < 0.6:
+        op, prefixes = op.with_key_path(("p",)), ["p"]
     elif r < 0.85:
-        op = op.with_measurement_key_mapping({"a": "z"})
-    if rng.random() < 0.4:
-        op = cirq.CircuitOperation(cirq.FrozenCircuit(cirq.Moment(cirq.measure(qs[1], key="a")), op)).repeat(2, use_repetition_ids=True)
-    return op
+        kmap = rng.choice([{"a": "z"}, {"b": "y"}, {"a": "z", "b": "y"}, {"a": "b", "b": "a"}])
+        op = op.with_measurement_key_mapping(kmap)
+    flat = []
+    for pre in prefixes:
+        K = lambda x: cirq.MeasurementKey(name=kmap.get(x, x), path=(pre,) if pre else ())
+        flat += [cirq.X(qs[0]) ** 0.5, cirq.measure(qs[0], key=K("a")), cirq.X(qs[2]) ** 0.5, cirq.measure(qs[2], key=K("b")),
+                 g1(qs[1]).with_classical_controls(K(k1), K(k2)), g2(qs[2]).with_classical_controls(K(k2))]
+        if with_c:
+            flat.append(cirq.measure(qs[1], key=K("c")))
+    return op, cirq.Circuit(flat, strategy=cirq.InsertStrategy.NEW)
 
 
 def standin_subcircuits(tier, seed):
@@ -88,7 +98,11 @@ def standin_subcircuits(tier, seed):
     for it in range(80 if tier == "quick" else 2000):
         inner = _inner(rng, qs)
         try:
-            op = _controlled_subcircuit(rng, qs) if it % 4 == 3 else _wrap(rng, inner, qs, depth=2)
+            expected_flat = None
+            if it % 4 == 3:
+                op, expected_flat = _controlled_subcircuit(rng, qs)
+            else:
+                op = _wrap(rng, inner, qs, depth=2)
             c = cirq.Circuit(cirq.Moment(cirq.H(qs[0])), op)
         except ValueError:
             continue  # a rejected construction (e.g. key collision) is not a wrong answer
@@ -101,6 +115,8 @@ def standin_subcircuits(tier, seed):
             continue
         cases += 1
         distinct.add(repr(c))
+        if expected_flat is not None:
+            flat_variants = {"hand-written flat circuit": cirq.Circuit(cirq.Moment(cirq.H(qs[0])), expected_flat), **flat_variants}
         want = None
         for ref_name, ref in list(flat_variants.items()):
             try:
